@@ -95,10 +95,24 @@ func prepare(fc *FaultCase) ([][]preparedBatch, error) {
 // every fault was applicable.
 func applyFaults(bar *colarspb.BatchArrowRecords, faults []Fault, retired []string) (*colarspb.BatchArrowRecords, bool, int, bool) {
 	b := proto.Clone(bar).(*colarspb.BatchArrowRecords)
+	// role of every payload currently in the batch: the main record, an
+	// intact copy of it (duplication faults), or another payload
+	const (
+		other = iota
+		mainRec
+		mainCopy
+	)
+	roles := make([]int, len(b.ArrowPayloads))
+	roles[0] = mainRec
+	mainType := bar.ArrowPayloads[0].Type
 	mainTouched := false
-	mainCopies := 1
-	// track where the original main payload currently sits
-	mainAt := 0
+	damage := func(i int) {
+		// a fault altered payload i itself: if it is the main record or one of
+		// its copies, no item count is demanded any more
+		if roles[i] != other {
+			mainTouched = true
+		}
+	}
 	for _, f := range faults {
 		n := len(b.ArrowPayloads)
 		if f.I < 0 || f.I >= n {
@@ -111,69 +125,64 @@ func applyFaults(bar *colarspb.BatchArrowRecords, faults []Fault, retired []stri
 				return nil, false, 0, false
 			}
 			pl.Type = colarspb.ArrowPayloadType(f.Type)
-			if f.I == mainAt {
-				mainTouched = true
-			} else if colarspb.ArrowPayloadType(f.Type) == bar.ArrowPayloads[0].Type {
-				mainTouched = true // a second "main" record: the batch is ambiguous
+			damage(f.I)
+			if colarspb.ArrowPayloadType(f.Type) == mainType {
+				mainTouched = true // a second "main" record that is none: the batch is ambiguous
 			}
 		case "drop":
-			b.ArrowPayloads = append(b.ArrowPayloads[:f.I:f.I], b.ArrowPayloads[f.I+1:]...)
-			if f.I == mainAt {
+			if roles[f.I] == mainRec {
 				mainTouched = true
-				mainAt = -1
-			} else if f.I < mainAt {
-				mainAt--
 			}
+			// dropping an intact COPY just removes one copy
+			b.ArrowPayloads = append(b.ArrowPayloads[:f.I:f.I], b.ArrowPayloads[f.I+1:]...)
+			roles = append(roles[:f.I:f.I], roles[f.I+1:]...)
 		case "dup":
 			b.ArrowPayloads = append(b.ArrowPayloads, proto.Clone(pl).(*colarspb.ArrowPayload))
-			if f.I == mainAt {
-				mainCopies++
+			r := other
+			if roles[f.I] != other {
+				r = mainCopy
 			}
+			roles = append(roles, r)
 		case "dup_adjacent":
 			cl := proto.Clone(pl).(*colarspb.ArrowPayload)
 			rest := append([]*colarspb.ArrowPayload{cl}, b.ArrowPayloads[f.I+1:]...)
 			b.ArrowPayloads = append(b.ArrowPayloads[:f.I+1:f.I+1], rest...)
-			if f.I == mainAt {
-				mainCopies++
-			} else if f.I < mainAt {
-				mainAt++
+			r := other
+			if roles[f.I] != other {
+				r = mainCopy
 			}
+			rrest := append([]int{r}, roles[f.I+1:]...)
+			roles = append(roles[:f.I+1:f.I+1], rrest...)
 		case "swap":
 			if f.J < 0 || f.J >= n || f.J == f.I {
 				return nil, false, 0, false
 			}
 			b.ArrowPayloads[f.I], b.ArrowPayloads[f.J] = b.ArrowPayloads[f.J], b.ArrowPayloads[f.I]
-			if f.I == mainAt {
-				mainAt = f.J
-			} else if f.J == mainAt {
-				mainAt = f.I
-			}
+			roles[f.I], roles[f.J] = roles[f.J], roles[f.I]
 		case "empty":
 			pl.Record = nil
-			if f.I == mainAt {
-				mainTouched = true
-			}
+			damage(f.I)
 		case "unknown_id":
 			pl.SchemaId = fmt.Sprintf("unknown-%d-%s", f.I, pl.SchemaId)
-			if f.I == mainAt {
-				mainTouched = true
-			}
+			damage(f.I)
 		case "stale_id":
 			if len(retired) == 0 {
 				return nil, false, 0, false
 			}
 			pl.SchemaId = retired[f.J%len(retired)]
-			if f.I == mainAt {
-				mainTouched = true
-			}
+			damage(f.I)
 		default:
 			return nil, false, 0, false
 		}
 	}
-	if mainCopies > 1 && mainTouched {
-		// copies made before/after the main payload was damaged: do not reason
-		// about how many intact main records are left
-		mainCopies = 1
+	mainCopies := 0
+	for _, r := range roles {
+		if r != other {
+			mainCopies++
+		}
+	}
+	if mainCopies == 0 {
+		mainTouched = true
 	}
 	return b, mainTouched, mainCopies, true
 }
@@ -275,8 +284,18 @@ func faultVerdict(fc *FaultCase) string {
 		return "harness: " + err.Error()
 	}
 	faults := make([][]Fault, len(fc.Segments))
+	damaged := 0
 	for k := range fc.Segments {
 		faults[k] = append([]Fault(nil), fc.Segments[k].Faults...)
+		if len(faults[k]) > 0 {
+			damaged++
+		}
+	}
+	if damaged > 1 {
+		// outside the quantifier ("a valid stream prefix followed by ONE
+		// altered batch"): not judged
+		fmt.Printf("NOTE: case damages %d batches; C07 quantifies over one damaged batch per session - not judged\n", damaged)
+		return ""
 	}
 	return runSession(prep, faults, nil)
 }
@@ -462,16 +481,29 @@ func TestC07(t *testing.T) {
 			for x := 0; x < nf; x++ {
 				faults[0] = append(faults[0], genFault(t, np))
 			}
-			for k := 1; k < len(prep); k++ {
-				if len(prep[k]) > 0 && rapid.IntRange(0, 2).Draw(t, "faultfollow") == 0 {
+			// The quantifier is "a valid stream prefix followed by ONE batch
+			// altered by any combination of faults": exactly one batch of a
+			// session is damaged. Sometimes it is the last batch of a follow-up
+			// producer instead (then the valid prefix spans several producers).
+			if len(prep) > 1 && rapid.IntRange(0, 3).Draw(t, "damagefollow") == 0 {
+				k := rapid.IntRange(1, len(prep)-1).Draw(t, "damagek")
+				if len(prep[k]) > 0 {
 					npk := len(prep[k][len(prep[k])-1].bar.ArrowPayloads)
-					faults[k] = append(faults[k], genFault(t, npk))
+					nfk := rapid.IntRange(1, 3).Draw(t, "nfk")
+					var fk []Fault
+					for x := 0; x < nfk; x++ {
+						fk = append(fk, genFault(t, npk))
+					}
+					faults[0] = nil
+					faults[k] = fk
 				}
 			}
 			msg := runSession(prep, faults, st)
 			var fs []string
-			for _, f := range faults[0] {
-				fs = append(fs, f.Kind)
+			for _, fk := range faults {
+				for _, f := range fk {
+					fs = append(fs, f.Kind)
+				}
 			}
 			sort.Strings(fs)
 			rec.Case(true, fmt.Sprintf("%s/d%d/combo/%s", signal, len(prep[0])-1, strings.Join(fs, "+")), []string{"fault_combination"}, nil)
